@@ -182,6 +182,23 @@ Section Admission.
          | None => find (fun e => e_id e =? id) untrusted
          end).
 
+  (* The PONG arm in full (a PONG answering a ping of the service itself, no user callback): the record
+     consulted is find_enr's - for a node that is not an entry (e.g. the candidate waiting in the pending
+     slot of its bucket) a record a running query holds ([untrusted], a record that merely appeared in
+     somebody's NODES answer).  That record decides whether an ENR update is requested and whether the
+     node's status is set to connected (update_node_status); it is never written to the table.
+     Result: was an ENR update (FINDNODE [0]) requested. *)
+  Definition pong_q (t : table) (untrusted : list enr) (id : N) (enr_seq : N) (now : N) : table * bool :=
+    let (t1, r) := find_enr t untrusted id now in
+    match r with
+    | Some e =>
+      let want := e_seq e <? enr_seq in
+      if contactable mode e
+      then (fst (t_update_node_status c t1 id true None now), want)
+      else (t1, want)
+    | None => (t1, false)
+    end.
+
   (* rpc_failure of a request without user callback: connection_updated(Disconnected) *)
   Definition failure (t : table) (id : N) (now : N) : table * upd :=
     t_update_node_status c t id false None now.
